@@ -2,7 +2,9 @@
    Same case format as harness/h_storage.c, plus what the model needs to be told:
      case <id> <raw|tiff|tiffjson|trash> <variant>      variant: fixed | unfixed | five 0/1 digits d3 d4 d5a d5b d6
      init <fd> <fd> ...                                 descriptors open when the device is created (harness line I)
-     c <tail> <entries>          w <tail> <entries...>      (a failing pwrite: E | EIO | ENOSPC | EAGAIN | EINTR | EBADF)
+     c <tail> <entries>          w <tail> <entries...>      (a failing pwrite: E | EIO | ENOSPC | EAGAIN | EINTR | EBADF | EINVAL)
+                                 create entries: o, f = open fails, l = flock fails, ftruncate fails with
+                                 t = EIO, s = ENOSPC, a = EAGAIN, r = EINTR, b = EBADF, v = EINVAL
      set <uri> <metadata length> | start | append <hex> <ld,lfirst,lother;...|-> | stop | envopen | envclose <k>
      end
    Output: O/S/E/R lines as the harness prints them, then after the close
@@ -41,6 +43,7 @@ let print_event paths = function
     if not (List.mem p !paths) then paths := p :: !paths;
     Printf.printf "S open %s %s\n" (pname p) (fdarg r)
   | ELock (fd, ok) -> Printf.printf "S flock %d %d\n" (int_of_nat fd) (if ok then 0 else -1)
+  | ETrunc (fd, ok) -> Printf.printf "S ftruncate %d %d\n" (int_of_nat fd) (if ok then 0 else -1)
   | EWrite (fd, off, len, r) ->
     Printf.printf "S pwrite %s %d %d %s\n" (fdarg fd) (int_of_nat off) (int_of_nat len) (fdarg r)
   | EClose (fd, ok) -> Printf.printf "S close %s %d\n" (fdarg fd) (if ok then 0 else -1)
@@ -92,12 +95,16 @@ let () =
          | OEnvOpen | OEnvClose _ -> Printf.printf "R ok -\n"
          | _ -> Printf.printf "R %s %s\n" (match s with Ok -> "ok" | Err -> "err") (state_name (get_state d1)))
     end in
-  let cresp_of = function 'f' -> CFailOpen | 'l' -> CFailLock | _ -> COk in
+  let cresp_of = function
+    | 'f' -> CFailOpen | 'l' -> CFailLock
+    | 't' -> CFailTrunc EIO | 's' -> CFailTrunc ENOSPC | 'a' -> CFailTrunc EAGAIN | 'r' -> CFailTrunc EINTR
+    | 'b' -> CFailTrunc EBADF | 'v' -> CFailTrunc EINVAL
+    | _ -> COk in
   (* write-script tokens: F = everything, <n> = min n remaining bytes, E = EIO, or the errno by name *)
   let wresp_of t = match t with
     | "F" -> WFull
     | "E" | "EIO" -> WErr EIO | "ENOSPC" -> WErr ENOSPC | "EAGAIN" -> WErr EAGAIN | "EINTR" -> WErr EINTR
-    | "EBADF" -> WErr EBADF
+    | "EBADF" -> WErr EBADF | "EINVAL" -> WErr EINVAL
     | _ -> WCount (nat_of_int (int_of_string t)) in
   (try
      while true do
